@@ -54,10 +54,10 @@ SVals == {0, 1, -2}         \* scalar operands of the broadcast operations
 Wa(k) == k
 Wb(k) == 3 - 2 * k
 Ws    == 3
-DualOf(v, w) == IF v = 9 THEN <<0, w>> ELSE Dual(v, w)
+DualOf(v, w) == IF v = 9 THEN <<0, w>> ELSE Dual(v, w)       \* 9: value 0, derivative w (a variable that is currently 0)
 MkA(vs) == SeqOf(Len(vs), LAMBDA k : DualOf(vs[k], Wa(k)))
 MkB(vs) == SeqOf(Len(vs), LAMBDA k : Dual(vs[k], Wb(k)))
-MkS(v)  == Dual(v, Ws)
+MkS(v)  == DualOf(v, Ws)
 MkV(vs) == SeqOf(Len(vs), LAMBDA k : <<vs[k], 0>>)     \* plain values (construction from value lists)
 NoS     == Z
 
@@ -131,7 +131,7 @@ PartOf(f) == IF f.op \in {"MdotV", "VdotM", "MdotM", "Outer", "VdotV"} THEN "pro
              ELSE IF f.cols < 0 THEN "vec" ELSE "mat"
 Families == {f \in AllFamilies :
                /\ (Part = "all" \/ PartOf(f) = Part)
-               /\ (ZeroVar => f.op \notin {"VdivV", "VdivS", "MdivM", "MdivS", "New", "Reset", "SetIdentity"})}
+               /\ (ZeroVar => f.op \notin {"VdivV", "MdivM", "New", "Reset", "SetIdentity"})}
 
 \* receivers of a family (the second level of the state graph)
 FamReceivers(f) ==
@@ -166,7 +166,8 @@ ForCases(f, r, P(_)) ==
          \E x \in Tuples(n, DomsEw(f)[1]) : \E y \in Tuples(n, DomsEw(f)[2]) :
             P(Case(f.op, r, O(f.rows, f.cols, MkA(x)), O(f.rows, f.cols, MkB(y)), NoS, dims))
     [] f.op \in {"VaddS", "VsubS", "VmulS", "VdivS", "MaddS", "MsubS", "MmulS", "MdivS"} ->
-         \E x \in Tuples(n, IF f.op \in {"VdivS", "MdivS"} THEN D3 ELSE VA3) : \E sv \in SVals :
+         \E x \in Tuples(n, IF f.op \in {"VdivS", "MdivS"} THEN D3 ELSE VA3) :
+           \E sv \in (IF ~ZeroVar THEN SVals ELSE IF f.op \in {"VdivS", "MdivS"} THEN {9} ELSE {9, -2}) :   \* ZeroVar: the scalar is a variable at 0
             P(Case(f.op, r, O(f.rows, f.cols, MkA(x)), NoOpd, MkS(sv), dims))
     [] f.op \in {"Set", "As"} ->   \* As: conversion of a into storage r.k (the result is a new object)
          \E x \in Tuples(n, VA3) : P(Case(f.op, r, O(f.rows, f.cols, MkA(x)), NoOpd, NoS, dims))
@@ -356,6 +357,40 @@ IntBoundCases ==
 \cup {ICase("Greater", x, y, IExp("b", x, SymVal(x, 128) > SymVal(y, 128), 0)) : x \in ISyms, y \in ISyms}
 \cup {ICase("Smaller", x, y, IExp("b", x, SymVal(x, 128) < SymVal(y, 128), 0)) : x \in ISyms, y \in ISyms}
 
+(***************************************************************************)
+(* GENERIC CONSTRUCTORS AND CONVERTERS (vector.go, matrix.go): functions   *)
+(* that take the element type as an argument.  For EVERY element type T    *)
+(* the case is instantiated for, the object built by ctor(T, ...) must     *)
+(* have element type T (ElementType() and the dynamic type), the storage   *)
+(* r.k, the shape and the content `exp`; `probe`: on an integer type,      *)
+(* MaxIntN stored into the first element and incremented by one must wrap  *)
+(* to MinIntN of THAT type (tells Int8 from Int16 containers).             *)
+(***************************************************************************)
+CtorRec(ctor, k, rows, cols, a, cc) ==
+  [op |-> "Ctor", ctor |-> ctor, r |-> Rep(k, rows, cols, PZ(Len2(rows, cols)), "-"), a |-> a, b |-> NoOpd, s |-> NoS,
+   dims |-> <<rows, cols, 0>>, exp |-> Exp("c", cc, FALSE),
+   probe |-> [x |-> Sym("max", 0), y |-> Sym("zero", 1), res |-> IntRes("Add", Sym("max", 0), Sym("zero", 1))]]
+CtorSrc(rows, cols, x) ==      \* the source of a conversion: content x in every representation
+  [rows |-> rows, cols |-> cols, c |-> MkA(x), reps |-> [k \in OpKinds(MkA(x)) |-> Stored(k, MkA(x))]]
+CtorCases ==
+  LET VN == 0..2
+      MS == {<<0, 0>>, <<1, 2>>, <<2, 1>>, <<2, 2>>}
+      Sto(name) == IF name \in {"NullDenseVector", "AsDenseVector", "NullDenseMagicVector", "AsDenseMagicVector",
+                                "NullDenseMatrix", "AsDenseMatrix", "NullDenseMagicMatrix", "AsDenseMagicMatrix",
+                                "DenseIdentityMatrix", "DenseMagicIdentityMatrix"} THEN "d" ELSE "s"
+  IN
+     {CtorRec(cn, Sto(cn), n, -1, NoOpd, Zeros(n)) :
+        cn \in {"NullDenseVector", "NullSparseVector", "NullDenseMagicVector", "NullSparseMagicVector"}, n \in VN}
+\cup {CtorRec(cn, Sto(cn), Len(x), -1, CtorSrc(Len(x), -1, x), Copy(MkA(x))) :
+        cn \in {"AsDenseVector", "AsSparseVector", "AsDenseMagicVector", "AsSparseMagicVector"}, x \in UNION {Tuples(n, V3) : n \in VN}}
+\cup {CtorRec(cn, Sto(cn), sh[1], sh[2], NoOpd, Zeros(sh[1] * sh[2])) :
+        cn \in {"NullDenseMatrix", "NullSparseMatrix", "NullDenseMagicMatrix", "NullSparseMagicMatrix"}, sh \in MS}
+\cup {CtorRec(cn, Sto(cn), q[1][1], q[1][2], CtorSrc(q[1][1], q[1][2], q[2]), Copy(MkA(q[2]))) :
+        cn \in {"AsDenseMatrix", "AsSparseMatrix", "AsDenseMagicMatrix", "AsSparseMagicMatrix"},
+        q \in {z \in (MS \ {<<2, 2>>}) \X (Tuples(2, V3) \cup {<<>>}) : Len(z[2]) = z[1][1] * z[1][2]}}
+\cup {CtorRec(cn, Sto(cn), n, n, NoOpd, Ident(n, n)) :
+        cn \in {"DenseIdentityMatrix", "SparseIdentityMatrix", "DenseMagicIdentityMatrix", "SparseMagicIdentityMatrix"}, n \in 0..3}
+
 (* ---- simulation: random contents beyond the exhaustive bounds ---------- *)
 RV(n, D) == SeqOf(n, LAMBDA i : RandomElement(D))
 V5 == -2..2
@@ -425,7 +460,12 @@ EmitScalar ==
   /\ \E k \in (IF Special THEN SpecialScalarCases \cup IntBoundCases ELSE ScalarCases) : Put(k)
   /\ ph' = "case" /\ UNCHANGED <<fam, rcv, rx, ry>>
 
-Next == PickFamily \/ PickReceiver \/ EmitCase \/ EmitScalar
+EmitCtor ==
+  /\ ph = "start" /\ Mode = "c03" /\ ~Sim /\ ~Special /\ ~ZeroVar /\ Part \in {"all", "vec"}
+  /\ \E k \in CtorCases : Put(k)
+  /\ ph' = "case" /\ UNCHANGED <<fam, rcv, rx, ry>>
+
+Next == PickFamily \/ PickReceiver \/ EmitCase \/ EmitScalar \/ EmitCtor
 Spec == Init /\ [][Next]_vars
 
 (***************************************************************************)
@@ -437,7 +477,7 @@ Spec == Init /\ [][Next]_vars
 (***************************************************************************)
 IsContainerCase == ph = "case" /\ "exp" \in DOMAIN c
 StorageIndependence ==
-  (IsContainerCase /\ c.exp.t = "c") =>
+  (IsContainerCase /\ c.exp.t = "c" /\ c.op # "Ctor") =>
      \A r2 \in Receivers(c.r.rows, c.r.cols) : Case(c.op, r2, c.a, c.b, c.s, c.dims).exp = c.exp
 \* every demanded value fits every element type (int8 included)
 Small == IsContainerCase => \A i \in 1..Len(c.exp.c) : c.exp.c[i][1] \in -100..100
